@@ -229,6 +229,38 @@ theorem run_restores (s : Script) (hs : s.setOnly = true) (st : St) : (run s st)
       have := ih hs st
       rw [hb] at this
       simpa using this
+  | reenter as body after ihb iha =>
+    simp only [Script.setOnly, Bool.and_eq_true] at hs
+    simp only [run]
+    cases hi : init as st.cfg with
+    | mk c1 q =>
+      obtain ⟨recs, e⟩ := q
+      cases e with
+      | some e => simp only; exact (failed_init_restores as st.cfg c1 recs e hi).1
+      | none =>
+        simp only
+        have h3 := exit_restores as st.cfg c1 recs hi
+        cases hb : run body { st with cfg := c1 } with
+        | mk sti outi =>
+          have h2 := ihb hs.1 { st with cfg := c1 }
+          rw [hb] at h2
+          simp only at h2
+          cases outi with
+          | some e => simp only [h2, h3]
+          | none =>
+            simp only
+            cases ha : run after sti with
+            | mk sta outa =>
+              have h4 := iha hs.2 sti
+              rw [ha] at h4
+              simp only at h4
+              rw [h4, h2, h3]
+
+/-- A `set` object entered again inside its own block (after fix bb7ca322): when the INNER block is left the configuration is
+what it was when the inner block was entered — the inner `__exit__` does not roll anything back. -/
+theorem reenter_inner_exit_restores (body : Script) (hb : body.setOnly = true) (st : St) (c1 : Dict) :
+    (run body { st with cfg := c1 }).1.cfg = c1 :=
+  run_restores body hb { st with cfg := c1 }
 
 /-- Nested contexts in particular: inside any stack of outer contexts and after any prefix, leaving an
 inner context restores what the inner context found (instance of `run_restores` at the inner script). -/
@@ -278,51 +310,64 @@ theorem assignAll_no_other_error (as : List (List Key × Val)) (d : Dict) : (ass
       simp only
       exact ih d1
 
-theorem run_exit_never_raises (s : Script) (hs : s.setOnly = true) (st : St) : (run s st).2 ≠ some .other_error := by
+/-- `__exit__` NEVER raises in such scripts — not the AttributeError branches and not the TypeError ones either: every
+`exitAll` call made while the script runs returns without an exception (so the only exceptions that leave a script are the
+user's and those of a `set(...)` constructor). -/
+theorem exit_never_raises (s : Script) (hs : s.setOnly = true) (st : St) : exitRaises s st = false := by
   induction s generalizing st with
-  | snap => simp [run]
-  | raise => simp [run]
+  | snap => rfl
+  | raise => rfl
   | poke k v => simp [Script.setOnly] at hs
   | del k => simp [Script.setOnly] at hs
   | seq a b iha ihb =>
     simp only [Script.setOnly, Bool.and_eq_true] at hs
-    simp only [run]
+    simp only [exitRaises, iha hs.1 st, Bool.false_or]
     cases hra : run a st with
     | mk st1 o =>
-      have h1 := iha hs.1 st
-      rw [hra] at h1
       cases o with
       | none => exact ihb hs.2 st1
-      | some e => simpa using h1
+      | some e => rfl
   | withSet as body ih =>
     simp only [Script.setOnly] at hs
-    simp only [run]
+    simp only [exitRaises]
     cases hi : init as st.cfg with
     | mk c1 q =>
       obtain ⟨recs, e⟩ := q
       cases e with
-      | some e =>
-        simp only
-        have h := (failed_init_restores as st.cfg c1 recs e hi).2
-        intro he
-        simp only [Option.some.injEq] at he
-        subst he
-        exact assignAll_no_other_error as st.cfg h
+      | some e => rfl
       | none =>
-        simp only
-        cases hb : run body { st with cfg := c1 } with
-        | mk st2 out =>
-          have h2 := run_restores body hs { st with cfg := c1 }
-          have h4 := ih hs { st with cfg := c1 }
-          rw [hb] at h2 h4
-          simp only at h2 h4
-          have h3 := exit_restores as st.cfg c1 recs hi
-          simp only [h2, h3]
-          exact h4
+        simp only [ih hs, Bool.false_or]
+        have h2 := run_restores body hs { st with cfg := c1 }
+        simp only at h2
+        rw [h2, exit_restores as st.cfg c1 recs hi]
+        rfl
   | tryCatch body ih =>
-    simp only [run]
-    cases run body st with
-    | mk st1 o => simp
+    simp only [Script.setOnly] at hs
+    simp only [exitRaises]
+    exact ih hs st
+  | reenter as body after ihb iha =>
+    simp only [Script.setOnly, Bool.and_eq_true] at hs
+    simp only [exitRaises]
+    cases hi : init as st.cfg with
+    | mk c1 q =>
+      obtain ⟨recs, e⟩ := q
+      cases e with
+      | some e => rfl
+      | none =>
+        simp only [ihb hs.1, Bool.false_or]
+        have h3 := exit_restores as st.cfg c1 recs hi
+        cases hb : run body { st with cfg := c1 } with
+        | mk sti outi =>
+          have h2 := run_restores body hs.1 { st with cfg := c1 }
+          rw [hb] at h2
+          simp only at h2
+          cases outi with
+          | some e => simp only [h2, h3]; rfl
+          | none =>
+            simp only [iha hs.2 sti, Bool.false_or]
+            have h4 := run_restores after hs.2 sti
+            rw [h4, h2, h3]
+            rfl
 
 /-! ### the contexts are not vacuous: inside the context the value is set -/
 
